@@ -26,7 +26,7 @@ CLAIMED = {
             "Bounded model checking: for every topology in the bound (all 4-node graphs with <=4 arcs + named 6-7 node family) and EVERY capacity vector, the returned flow is feasible and its value equals the minimum cut.",
             GEN_NOTE, "DESIGN.md 4/C08"),
     "C09": ("symbolic execution of min_cost_flow / network_simplex / solve_assignment with capacities, demand/supplies (pass cap) or costs (pass cost) as unbounded SMT Ints per topology; optimality = z3 query for a strictly cheaper feasible integer flow (fresh Int variables)",
-            "Bounded model checking: on the named topologies (3-5 nodes) for EVERY capacity/supply vector (resp. cost vector): flow within capacity, balances met exactly, integral, objective = sum cost*flow, no cheaper feasible integer flow, INFEASIBLE only if none exists; assignment optimal over all matchings up to 3x2. Known finding (listed, not suppressing other violations): min_cost_flow on anti-parallel / parallel arcs with different costs.",
+            "Bounded model checking: on the named topologies (3-5 nodes) for EVERY capacity/supply vector (resp. cost vector): flow within capacity, balances met exactly, integral, objective = sum cost*flow, no cheaper feasible integer flow, INFEASIBLE only if none exists; assignment optimal over all matchings up to 3x2.",
             GEN_NOTE, "DESIGN.md 4/C09"),
     "C10": ("symbolic execution of the real solve_hungarian with every matrix entry an unbounded SMT Int/Real; optimality as explicit conjunction over all matchings, discharged by z3 per path",
             "Bounded model checking: for every shape up to 3x3 (+1x4, 4x1; thorough to 4x4), both directions and EVERY matrix of that shape (unbounded ints and reals), the assignment is a matching of size min(r,c), the objective is the sum of chosen entries and no matching is better.",
